@@ -30,7 +30,7 @@ def run(ctx):
                 "distinct_nontrivial = concrete lines")
     ctx.assumptions = ["comment text avoids cosmetic markers; 'name##x' without a blank is element-hiding syntax and outside the contract"]
     ctx.build()
-    r = ctx.tlc("HostLine", CFG % (2 if ctx.tier == "quick" else 3), timeout=600)
+    r = ctx.tlc("HostLine", CFG % (2 if ctx.tier == "quick" else 4), timeout=600)
     recs = [x for x in r.records if "line" in x]
     s, mism = replay_cases(ctx, recs)
     ctx.evaluations = s["evaluations"]
